@@ -47,7 +47,7 @@ def _listing_case(draw):
     style = draw(st.sampled_from(["links", "map", "plain"]))
     extra = []
     for _ in range(draw(st.integers(0, 4))):
-        k = draw(st.sampled_from(["remote", "url", "search", "info", "locallink"]))
+        k = draw(st.sampled_from(["remote", "url", "search", "info", "locallink", "portonly"]))
         extra.append({"k": k, "name": draw(label), "host": draw(st.sampled_from(["other.example", "gopher.floodgap.com", "h-2.example.org"])),
                       "port": draw(st.sampled_from([70, 7070, 105, 1])), "type": draw(st.sampled_from(["0", "1", "9", "h", "I"])),
                       "sel": draw(st.sampled_from(["/", "/x", "/a b", "/d/e.txt", "/caf\xc3\xa9", "/q?x=1", "/50%25"])),
@@ -121,6 +121,9 @@ def _listing_spec(case):
             if e["k"] == "remote":
                 blocks.append("Name=%s\nType=%s\nPath=%s\nHost=%s\nPort=%s\n" % (
                     e["name"], e["type"], e["sel"], e["host"], "+" if e["port"] == 1 else e["port"]))
+            elif e["k"] == "portonly":
+                # this host, another port
+                blocks.append("Name=%s\nType=%s\nPath=%s\nHost=+\nPort=%d\n" % (e["name"], e["type"], e["sel"], e["port"] + 7001))
             elif e["k"] == "url":
                 blocks.append("Name=%s\nType=h\nPath=URL:%s\nHost=+\nPort=+\n" % (e["name"], e["url"]))
             elif e["k"] == "search":
@@ -138,6 +141,8 @@ def _listing_spec(case):
         for e in case["extra"]:
             if e["k"] == "remote":
                 lines.append("%s%s\t%s\t%s\t%s" % (e["type"], e["name"], e["sel"], e["host"], "" if e["port"] == 1 else e["port"]))
+            elif e["k"] == "portonly":
+                lines.append("%s%s\t%s\t\t%d" % (e["type"], e["name"], e["sel"], e["port"] + 7001))
             elif e["k"] == "url":
                 lines.append("h%s\tURL:%s" % (e["name"], e["url"]))
             elif e["k"] == "search":
